@@ -317,15 +317,55 @@ def brace_block(text, start, what):
     raise ExtractError(f"{what}: unbalanced braces")
 
 
+ATTR_OK = re.compile(r"^(allow\(.*\)|doc\(.*\)|inline(\(.*\))?)$")
+
+
+def check_attrs(text, pos, what, extra=()):
+    """attributes attached to the item starting at text[pos] (line start): only allow/doc/inline
+    (+ `extra`) may be present -- a `#[cfg(..)]`-split definition must not be translated silently."""
+    lines = text[:pos].split("\n")
+    lines.pop()                                   # the (partial) line of the item itself
+    while lines:
+        ln = lines.pop().strip()
+        if ln == "":
+            continue
+        m = re.fullmatch(r"#\[(.*)\]", ln)
+        if not m:
+            break
+        a = m.group(1).strip()
+        if not (ATTR_OK.match(a) or a in extra):
+            raise ExtractError(f"{what}: attribute #[{a}] on a translated item")
+
+
+def line_start(text, pos):
+    return text.rfind("\n", 0, pos) + 1
+
+
 def impl_block(text, header_re, what):
-    m = must(header_re, text, what, flags=re.M)
+    ms = list(re.finditer(header_re, text, flags=re.M))
+    if len(ms) != 1:
+        raise ExtractError(f"{what}: {len(ms)} impl blocks match (exactly one expected)")
+    m = ms[0]
+    check_attrs(text, line_start(text, m.start()), what)
     return brace_block(text, m.end() - 1, what)[0]
 
 
-def fn_source(impl, name, what):
-    m = must(r"\bfn " + re.escape(name) + r"\s*(?:<[^>]*>)?\(([^)]*)\)\s*(?:->\s*([^{]+?))?\s*\{", impl, what)
+def fn_source(impl, name, what, extra_attrs=()):
+    ms = list(re.finditer(r"\bfn " + re.escape(name) + r"\s*(?:<[^>]*>)?\(([^)]*)\)\s*(?:->\s*([^{]+?))?\s*\{", impl))
+    if len(ms) != 1 or len(re.findall(r"\bfn " + re.escape(name) + r"\b", impl)) != 1:
+        raise ExtractError(f"{what}: {len(ms)} definitions of `fn {name}` in its impl block (exactly one expected)")
+    m = ms[0]
+    ls = line_start(impl, m.start())
+    if not re.fullmatch(r"\s*(pub(\([a-z]+\))?\s+)?", impl[ls:m.start()]):
+        raise ExtractError(f"{what}: unexpected qualifiers before `fn {name}`")
+    check_attrs(impl, ls, what, extra_attrs)
     body, _ = brace_block(impl, m.end() - 1, what)
     return m.group(1), (m.group(2) or "").strip(), body
+
+
+# `is_validext` is test-only code in the source: it is translated as the *specification* predicate of
+# extended coordinates (nothing in the production build depends on it)
+EXTRA_ATTRS = {"ecm.is_validext": ("cfg(test)",)}
 
 
 TYPES = {"&Point": "Pt", "Point": "Pt", "&ExtPoint": "Ext", "ExtPoint": "Ext", "bool": "Bool"}
@@ -405,7 +445,7 @@ def parse_all():
         g = GROUPS[grp]
         what = f"{path} {key}"
         impl = impl_block(files[path], hdr, what)
-        sig, ret, body = fn_source(impl, name, what)
+        sig, ret, body = fn_source(impl, name, what, EXTRA_ATTRS.get(key, ()))
         if name == "to_proj":
             continue
         params = params_of(sig, what)
